@@ -52,6 +52,12 @@ for line in p.stdout.splitlines():
     print("  " + line[:300])
 
 dst = os.path.join(ROOT, "seeded", "%s-%s" % (a.id, a.variant)); os.makedirs(dst, exist_ok=True)
+old = {}
+if os.path.exists(os.path.join(dst, "meta.json")):
+    try:
+        old = json.load(open(os.path.join(dst, "meta.json")))
+    except Exception:
+        pass
 for f in os.listdir(sd):
     src = os.path.join(sd, f)
     if os.path.isfile(src) and os.path.getsize(src) < 400000 and not f.endswith((".o", ".so")) and not os.access(src, os.X_OK) or f.endswith(".sh"):
@@ -61,18 +67,14 @@ try:
     meta = json.load(open(os.path.join(sd, "meta.json")))
 except Exception:
     pass
-old = {}
-if os.path.exists(os.path.join(dst, "meta.json")):
-    try:
-        old = json.load(open(os.path.join(dst, "meta.json")))
-    except Exception:
-        pass
 meta["breaks_property"] = a.id
 meta["demo_command"] = a.demo
 if confirmed is not None:
     meta["confirmed_by_us"] = {"ok": confirmed, "steps": [r[0] for r in ran]}
 elif "confirmed_by_us" in old:
     meta["confirmed_by_us"] = old["confirmed_by_us"]
+if "note" in old and "note" not in meta:
+    meta["note"] = old["note"]
 cr = old.get("check_results", {}); cr.update({i: {"tier": a.tier, "seed": a.seed, "result": res.get(i, "?")} for i in ids}); meta["check_results"] = cr
 json.dump(meta, open(os.path.join(dst, "meta.json"), "w"), indent=1)
 print("kept", dst)
